@@ -416,7 +416,7 @@ Proof.
   assert (G0 : Good s (set_adapt s (adaptive s) 0 [])) by (split; [exact H0|reflexivity]).
   destruct (hasT s).
   - eapply Good_trans; [exact G0|apply extend_good; exact H0].
-  - destruct (Qeq_bool _ _); [exact G0|].
+  - destruct (Qle_bool _ _); [exact G0|].
     eapply Good_trans; [exact G0|apply extend_good; exact H0].
 Qed.
 
@@ -896,7 +896,7 @@ Proof.
       split; [reflexivity|]. unfold adaptiveUpdate.
       match goal with |- context [set_adapt ?S ?A 0%nat []] => set (s0 := set_adapt S A 0%nat []) end.
       destruct (hasT _); [apply extend_counters; reflexivity|].
-      destruct (Qeq_bool _ _); [cbn; auto|apply extend_counters; reflexivity].
+      destruct (Qle_bool _ _); [cbn; auto|apply extend_counters; reflexivity].
 Qed.
 
 (** np.unique: the scheduled points are strictly increasing (sorted, no duplicates) *)
@@ -1628,7 +1628,7 @@ Theorem facts_agree :
   src_stencil1 = stencil 1 /\ src_stencil2 = stencil 2 /\ src_fd_order = 4%nat /\
   src_fd_call_plain = true /\ src_modes_before_rebuild = true /\ src_range_from_filtered = true /\
   src_flag_is_function_mode = true /\ src_append_frac_table == 1 # 5 /\
-  src_append_frac_notable == 1 # 2 /\ src_skip_single_point = true /\
+  src_append_frac_notable == 1 # 2 /\ src_notable_guard = 2%nat /\ src_notable_guard_const == 1 # 100000000 /\
   src_resolution == 1 # 100000000 /\ src_extend_no_arange = true.
 Proof. vm_compute. repeat split; reflexivity || discriminate. Qed.
 Print Assumptions facts_agree.
